@@ -260,6 +260,8 @@ class Runner:
             for name, meths, f in fronts_for(n):
                 if self.mask is not None and name not in self.mask:
                     continue
+                if name == "flatten_keys(nt)" and type(n).__name__ == "TensorDictParams":
+                    continue   # TensorDictParams.flatten_keys has no is_leaf parameter: an API difference, not a memoisation matter
                 del FRESH_RAISED[:]
                 a = run_front(f, n, cs)
                 if FRESH_RAISED:
